@@ -763,3 +763,48 @@ func vhGenuine(maxKids int) {
 
 func VH_C08_genuine()      { vhGenuine(1) }
 func VH_C08_genuine_deep() { vhGenuine(2) }
+
+// VH_C01_summary_first: with several verified assertions the caller-facing summary (NameID, attributes,
+// session index, warnings) is taken from the FIRST one, in document order, whether or not it is encrypted.
+func VH_C01_summary_first() {
+	sp := vhOrchSP(false)
+	s := &vhScenario{rootSig: vChoice("root.sig", 2)}
+	s.root = vhResponseRoot(s, "samlp:Response")
+	n := 2 + vChoice("nAssertions-2", 2)
+	for i := 0; i < n; i++ {
+		p := "c" + string(rune('0'+i))
+		a := vhAssertionEl(p, vhSigValid)
+		if vFlag(p + ".encrypted") {
+			s.root.AddChild(vhEncryptedEl(p+".enc", a.el))
+		} else {
+			s.root.AddChild(a.el)
+		}
+		s.order = append(s.order, a)
+	}
+	ids := []string{s.ID}
+	for _, a := range s.order {
+		ids = append(ids, a.ID)
+	}
+	for i := range ids {
+		for j := i + 1; j < len(ids); j++ {
+			vAssume(ids[i] != ids[j])
+		}
+	}
+	info, err := sp.RetrieveAssertionInfo(vEncodeDoc("wire", s.root, 0))
+	vDebugErr("RetrieveAssertionInfo", err)
+	vReach("accepted", err == nil)
+	if err != nil {
+		return
+	}
+	first := s.order[0]
+	vAssert("C01,C08.summary-is-taken-from-the-first-verified-assertion", vAnd(info.NameID == first.NameID, info.SessionIndex == first.SessionIndex))
+	at, have := info.Values[first.AttrName]
+	vAssert("C01,C08.summary-attributes-are-the-first-assertions", have && len(at.Values) == 1 && len(info.Values) == 1)
+	if have && len(at.Values) == 1 {
+		vAssert("C01,C08.summary-attribute-value", at.Values[0].Value == first.AttrValue)
+	}
+	vAssert("C01,C08.all-verified-assertions-listed-in-order", len(info.Assertions) == n && vhSameInOrder(info.Assertions, s.order))
+	if w := info.WarningInfo; w != nil {
+		vAssert("C06.audience-warning-reflects-the-first-assertion", vIff(w.NotInAudience, first.Audience != sp.AudienceURI))
+	}
+}
